@@ -23,6 +23,7 @@ class State:
         self.bare_seen = set()
         self.results = {}     # op index -> result of observation ops
         self.dns_done = {}
+        self.detached = set()  # stand-alone bundles not (yet) attached to the document
 
     def mk_name(self, spec):
         if spec is None:
@@ -105,6 +106,20 @@ def exec_op(st, op):
             st.bare_seen.add("D")
         b = st.doc.bundle(st.mk_name(op[2]))
         st.tg[op[1]] = b
+        return b
+    if k == "sbundle":
+        b = pm.ProvBundle(identifier=st.mk_name(op[2]))
+        st.tg[op[1]] = b
+        st.detached.add(op[1])
+        return b
+    if k == "attach":
+        if op[1] not in st.tg or op[1] not in st.detached:
+            raise Skip("no-target")
+        if _has_local(op):
+            st.bare_seen.add(op[1])
+        b = st.tg[op[1]]
+        st.doc.add_bundle(b, st.mk_name(op[2]))
+        st.detached.discard(op[1])
         return b
     if k == "rec":
         t, kind, rid, args, extras, via, label = op[1:8]
